@@ -3,7 +3,7 @@ import os
 import vcheck as V
 from props import common
 
-THEOREMS = ["C10_holds", "C10_block", "C10_selection", "C10_fold", "C10_selection_at_height", "C10_genesis_leaver_refuted"]
+THEOREMS = ["C10_holds_closed", "C10_holds_inputs", "C10_fold_closed", "C10_opts_ok_inputs", "C10_holds", "C10_block", "C10_selection", "C10_fold", "C10_selection_at_height", "C10_genesis_leaver_refuted"]
 PROPS_V = "theories/Props/C10.v"
 
 
